@@ -627,7 +627,7 @@ def _monitor(res, case, save_at, ts, us, nsteps, ev, mode="save_at"):
     if len(reports) != K - 1:
         res.violate("I5:reports", f"{len(reports)} interpolation reports for {K - 1} checkpoints")
         return
-    if np.any(np.abs(ts - np.asarray(save_at)) > eps * (1 + 1e-9)):
+    if np.any(np.abs(ts - np.asarray(save_at)) > eps * (1 + 1e-9) + 4 * np.spacing(np.abs(np.asarray(save_at)))):
         k = int(np.argmax(np.abs(ts - np.asarray(save_at))))
         res.violate("I5:time", f"requested {save_at[k]!r} reported at {ts[k]!r} (eps={eps})")
     if np.any(np.diff(ts) < 0):
@@ -641,15 +641,16 @@ def _monitor(res, case, save_at, ts, us, nsteps, ev, mode="save_at"):
     prev_report = None
     for k, (r, nb) in enumerate(zip(reports, accepted_before_report), start=1):
         kind_r, t, ft, tt, n_to = r
-        if not (ft - eps <= t <= tt + eps):
+        if not (ft - eps * (1 + 1e-9) - 4 * np.spacing(abs(ft)) <= t <= tt + eps * (1 + 1e-9) + 4 * np.spacing(abs(tt))):
             res.violate("I6:bracket", f"interpolation at {t} outside [{ft}, {tt}] (+- eps)")
         if kind_r == "interp_at":
             res.label("branch:at_t1")
-            if abs(tt - save_at[k]) > eps:
+            # the loop decides with `step_from.t + eps < t1`; comparing |t1 - step_from.t| with eps rounds differently at the boundary
+            if abs(tt - save_at[k]) > eps * (1 + 1e-9) + 4 * np.spacing(max(abs(tt), abs(save_at[k]))):
                 res.violate("I6:at_t1", f"'at t1' branch used although |{tt} - {save_at[k]}| > eps")
         else:
             res.label("branch:beyond")
-            if not tt > save_at[k] + eps:
+            if not tt > save_at[k] + eps * (1 - 1e-9) - 4 * np.spacing(max(abs(tt), abs(save_at[k]))):
                 res.violate("I6:beyond", f"'beyond t1' branch used although {tt} <= {save_at[k]} + eps")
         # I6 (continuation): `interp_from` is documented as "the left-hand side of the current subinterval": once a requested time
         # inside a step has been reported, the remaining subinterval starts there, so a further report produced without another
@@ -686,7 +687,7 @@ def _outputs_every_step(res, case, T, ts, us, nsteps, reports, ends):
         return
     if np.any(np.asarray(ts[:-1]) != np.asarray(expected[:-1])):
         res.violate("I5:steps(every_step)", "reported times are not the ends of the accepted steps")
-    if abs(ts[-1] - T) > eps * (1 + 1e-9):
+    if abs(ts[-1] - T) > eps * (1 + 1e-9) + 4 * np.spacing(abs(T)):
         res.violate("I5:time", f"final time {T!r} reported at {ts[-1]!r} (eps={eps})")
     if np.any(np.diff(ts) <= 0):
         res.violate("I5:order", "reported times are not increasing")
